@@ -292,3 +292,54 @@ func sortedKeys[V any](m map[string]V) []string {
 	sort.Strings(ks)
 	return ks
 }
+
+func isNumeral(t Term) bool {
+	_, ok := constOf(t)
+	if ok {
+		return true
+	}
+	s := t.S
+	if strings.HasPrefix(s, "(- ") && strings.HasSuffix(s, ")") {
+		s = s[3 : len(s)-1]
+	}
+	if s == "" {
+		return false
+	}
+	for _, r := range s {
+		if r < '0' || r > '9' {
+			return false
+		}
+	}
+	return true
+}
+
+// tMul multiplies two integer terms. A product of two non-constant terms is an uninterpreted
+// function with the sign/zero/unit laws as ground facts: enough for conservation arguments and it
+// keeps every query inside linear arithmetic (no nonlinear solver involved).
+func (e *Enc) tMul(a, b Term) Term {
+	if isNumeral(a) || isNumeral(b) {
+		return app(SInt, "*", a, b)
+	}
+	if strings.Contains(a.S, "|q.") || strings.Contains(b.S, "|q.") {
+		return app(SInt, "*", a, b)
+	}
+	e.declFun("nlmul", []Sort{SInt, SInt}, SInt)
+	r := e.define("mul", app(SInt, "nlmul", a, b))
+	key := "nlmul:" + a.S + "*" + b.S
+	if !e.declared[key] {
+		e.declared[key] = true
+		zero := tInt(0)
+		e.fact(tImp(tOr(tEq(a, zero), tEq(b, zero)), tEq(r, zero)))
+		e.fact(tImp(tAnd(tLe(zero, a), tLe(zero, b)), tLe(zero, r)))
+		e.fact(tImp(tAnd(tLt(zero, a), tLt(zero, b)), tAnd(tLe(a, r), tLe(b, r))))
+		e.fact(tImp(tEq(a, tInt(1)), tEq(r, b)))
+		e.fact(tImp(tEq(b, tInt(1)), tEq(r, a)))
+		e.fact(tEq(r, app(SInt, "nlmul", b, a)))
+		// products with small constant factors are linear
+		for _, k := range []int64{2, 3, 4, 5, 10, 100, 1000} {
+			e.fact(tImp(tEq(a, tInt(k)), tEq(r, app(SInt, "*", tInt(k), b))))
+			e.fact(tImp(tEq(b, tInt(k)), tEq(r, app(SInt, "*", tInt(k), a))))
+		}
+	}
+	return r
+}
